@@ -110,7 +110,9 @@ def check_hierarchy(db: Any, prefix: str, types: Sequence[str], parents: Sequenc
         broken = False
         for cp in layer.comparam_refs:
             tag = _tag(cp)
-            key = (cp.short_name, _strip(cp.protocol_snref, prefix))
+            key = (ref.param_of_spec_id(cp.spec_ref.ref_id), _strip(cp.protocol_snref, prefix))
+            if cp.short_name != ref.short_name(key[0]):
+                out.append(("C15/view/short-name-differs-from-specification", f"{where}: {key} reports short name {cp.short_name!r}"))
             o["view"].append([key[0], key[1], tag, getattr(cp, "prot_stack_snref", None)])
             if tag is None or tag not in by_tag:
                 out.append(("C15/view/unknown-instance", f"{where}: entry {key} carries no known marker ({tag!r})"))
@@ -157,7 +159,11 @@ def check_hierarchy(db: Any, prefix: str, types: Sequence[str], parents: Sequenc
         # ---------------- lookup ----------------
         found: Dict[Tuple[str, Optional[str]], Optional[str]] = {}
         dontcare = set()  # (parameter, protocol) queries whose answer the property leaves open
-        for param in list(params) + [UNKNOWN_PARAM]:
+        asked = list(dict.fromkeys(ref.short_name(x) for x in params))
+        # + a name nobody has + a proper prefix of an existing name that is no name itself (both must give None)
+        asked += [x for x in (UNKNOWN_PARAM, asked[0][:-2]) if x not in asked]
+        have_specific = {(ref.short_name(k[0]), k[1]) for k in observed}
+        for param in asked:
             for q, form in ((None, "none"), ("P1", "str"), ("P2", "str"), ("P1", "obj"), ("P2", "obj")):
                 arg = None if q is None else (prefix + q if form == "str" else proto_objs[q])
                 cnt("lookups")
@@ -179,7 +185,7 @@ def check_hierarchy(db: Any, prefix: str, types: Sequence[str], parents: Sequenc
                 if form == "str" or q is None:
                     found[(param, q)] = got_tag if (got is None or got_tag in by_tag) else "?"
                 if got_tag in adm:
-                    if q is not None and len(adm) == 1 and (param, q) in observed and (param, None) in observed:
+                    if q is not None and len(adm) == 1 and (param, q) in have_specific and (param, None) in have_specific:
                         cnt("lookups_specific_preferred_over_generic")
                     continue
                 mode = "wrong-instance"
@@ -188,11 +194,11 @@ def check_hierarchy(db: Any, prefix: str, types: Sequence[str], parents: Sequenc
                     mode = "none-although-defined"
                 elif gi is None:
                     mode = "unknown-instance"
-                elif gi["param"] != param:
-                    mode = "wrong-name"
+                elif ref.short_name(gi["param"]) != param:
+                    mode = "name-only-starts-with-requested-name" if ref.short_name(gi["param"]).startswith(param) else "wrong-name"
                 elif None in adm:
                     mode = "instance-although-undefined"
-                elif q is not None and gi["proto"] is None and (param, q) in observed:
+                elif q is not None and gi["proto"] is None and (param, q) in have_specific:
                     mode = "generic-returned-although-protocol-specific-exists"
                 elif q is not None and gi["proto"] not in (None, q):
                     mode = "other-protocol-returned"
@@ -267,7 +273,11 @@ def check_hierarchy(db: Any, prefix: str, types: Sequence[str], parents: Sequenc
                 kind, exp = ref.accessor_expectation(acc, inst, variant)
                 omitted = False
                 if inst is not None:
-                    omitted = (inst["subs"][ref.sub_names(param, variant).index(sub)] is None) if sub else (inst.get("value") is None)
+                    if sub:
+                        slots = ref.sub_names(inst["param"], variant)  # (a namesake specification may lack the sub-parameter)
+                        omitted = sub in slots and inst["subs"][slots.index(sub)] is None
+                    else:
+                        omitted = inst.get("value") is None
                 if kind == "dontcare":
                     cnt("accessor_calls_dontcare")
                     continue
@@ -568,6 +578,8 @@ CROSS_SETS = {
     # name: (parameters, the ones placed by the second vector)
     "core": (ref.CORE, ("CP_UniqueRespIdTable",)),
     "fd": (GATE, ("CP_CANFDTxMaxDataLength",)),
+    "namesake": (ref.NAMESAKE_SET, ("CP_CanFuncReqId@B", "CP_UniqueRespIdTable@B")),
+    "prefix": (ref.PREFIX_SET, ("CP_CanFuncReqId_Ecu",)),
 }
 
 
@@ -594,15 +606,15 @@ def unit(u: Tuple[Any, ...]) -> Part:
             buf.extend(configs_for(types, parents, placement, params, None, full, full, None, variant))
             _flush(part, buf)
     elif kind == "cross":
-        _, n, hidx, lead, cset = u
+        _, n, hidx, lead, cset, modes, uniform = u
         params, params2 = CROSS_SETS[cset]
         types, parents = hier(n)[hidx]
         first = [i for i, t in enumerate(types) if t != ref.ESD][0]
-        per = ref.layer_placements(2)
-        for p1 in ref.placements(types, 2):
+        per = ref.layer_placements(modes, uniform)
+        for p1 in ref.placements(types, modes, uniform):
             if p1[first] != per[lead]:
                 continue
-            for p2 in ref.placements(types, 2):
+            for p2 in ref.placements(types, modes, uniform):
                 part.count("placement_vectors")
                 part.count(f"cross_vectors_{cset}")
                 buf.extend(configs_for(types, parents, p1, params, p2, False, True, params2))
@@ -617,7 +629,7 @@ def unit(u: Tuple[Any, ...]) -> Part:
             for mask in range(2 ** len(subs)):
                 for simple_omitted in (False, True):
                     local: List[List[Dict[str, Any]]] = [[]]
-                    for pidx, param in enumerate(ref.ALL):
+                    for pidx, param in enumerate(ref.BASE):
                         inst: Dict[str, Any] = {"layer": 0, "param": param, "proto": proto, "tag": f"i0.{pidx}.{proto or 'G'}"}
                         if ref.is_complex(param):
                             slots = ref.complex_values(0, proto, pidx, subs, None)
@@ -634,7 +646,7 @@ def unit(u: Tuple[Any, ...]) -> Part:
                     part.count("placement_vectors")
                     part.count("subset_vectors")
                     part.add("omitted_subvalue_sets", (variant, mask))
-                    buf.append(case_of((ltype,), ((),), local, ref.ALL, False, variant))
+                    buf.append(case_of((ltype,), ((),), local, ref.BASE, False, variant))
                     _flush(part, buf)
     _flush(part, buf, force=True)
     return part
@@ -657,17 +669,23 @@ def plan(quick: bool) -> Tuple[List[Tuple[Any, ...]], Dict[str, Any], int]:
                              for lead in range(len(ref.layer_placements(modes, not full))))
                 expect += ref.n_placements(h[0], modes, not full)
 
-    def cross(cset: str, hi: int) -> None:
+    def cross(cset: str, hi: int, lo: int = 1, modes: Any = 2, uniform: bool = False) -> None:
         nonlocal expect
-        for n in range(1, hi + 1):
+        for n in range(lo, hi + 1):
             for hidx, h in enumerate(hier(n)):
-                units.extend(("cross", n, hidx, lead, cset) for lead in range(len(ref.layer_placements(2))))
-                expect += ref.n_placements(h[0]) ** 2
+                units.extend(("cross", n, hidx, lead, cset, modes, uniform) for lead in range(len(ref.layer_placements(modes, uniform))))
+                expect += ref.n_placements(h[0], modes, uniform) ** 2
 
     aligned("core", 1, bounds["core_layers"])
     aligned("all", 1, bounds["all_layers"])
     cross("core", bounds["cross_layers"])
     cross("fd", bounds["fd_cross_layers"])
+    # two specifications with EQUAL short names in two subsets; a specification whose short name EXTENDS another one:
+    # placed independently of their counterparts: 1 layer all placements, 2 layers given values
+    bounds["namesake_and_prefix_cross"] = "1 layer: 11 x 11 placements; 2 layers: 5 x 5 per layer (values given)"
+    for cset in ("namesake", "prefix"):
+        cross(cset, 1)
+        cross(cset, 2, 2, (ref.M_GIVEN,))
     # PROT-STACK-SNREF alone and together with PROTOCOL-SNREF
     aligned("core", 1, bounds["stack_layers_all_four_modes"], "flat", 4)
     aligned("core", bounds["stack_layers_all_four_modes"] + 1, bounds["stack_layers_given_only"], "flat", (ref.M_GIVEN, ref.M_STACK))
@@ -724,7 +742,7 @@ def run(ctx: Ctx) -> None:
                                "generic+P1 pair, PARENT-REFs as listed and reversed if a layer has several parents; 4 layers: generic "
                                "first, PARENT-REFs as listed, and the two instances of a generic+P1 pair are both given or both omitted "
                                "(9 instead of 11 placements per layer)",
-            "parameters": {"core": list(ref.CORE), "all": list(ref.ALL)},
+            "parameters": {"core": list(ref.CORE), "all": list(ref.BASE), "namesake": list(ref.NAMESAKE_SET), "prefix": list(ref.PREFIX_SET)},
             "queries_per_layer": "comparam_refs; get_comparam(name, protocol) for name in parameters + 1 unknown, protocol in "
                                  "{None, 'P1', 'P2', Protocol P1, Protocol P2}; get_value / get_subvalue(all subs + 1 unknown) of every "
                                  "entry; every typed accessor x protocol in {None, P1, P2}",
@@ -753,6 +771,9 @@ def run(ctx: Ctx) -> None:
             "Database.refresh(); edits are undone before the next one, so every refresh also has to forget the previous edit",
             "lookups and accessors are judged on the view / instance the real code produced (the view itself is judged against the "
             "reference), so one root cause yields one finding key",
+            "a parameter is a COMPARAM specification (ODXLINK id), not a short name: namesakes of two subsets are both in the view; "
+            "get_comparam(short name, ...) with several namesakes that qualify equally is DON'T-CARE among them; names are compared "
+            "for equality (a name that only starts with / is a prefix of the requested one does not match)",
             "PROT-STACK-SNREF is not part of the (parameter, protocol) key: an instance with both qualifiers is the protocol-specific "
             "instance; two instances of one layer never differ in the PROT-STACK-SNREF only",
             "the nested sub-parameter itself is not read through get_subvalue (it has no string value); only its simple siblings are",
